@@ -3,15 +3,18 @@
   version."  The document mirror itself is HL.Props.C01.mirror_history; here: the two caches
   the server derives from a document's text and consults when answering.
 
-  * `Server.resolved` (include tree stored by a background task): the model is HL.Bg
-    (shared with C14); `resolved_fresh` re-states HL.Props.C14.resolved_never_stale under
-    C01's name: for every history and every scheduling of the background tasks the stored tree
-    is absent or the tree of the CURRENT text.
+  * `Server.resolved` (include tree stored by a background task, or by the handler itself when a
+    request arrives before the task): the model is HL.Bg (shared with C14); `resolved_fresh`
+    re-states HL.Props.C14.resolved_never_stale under C01's name: for every history and every
+    scheduling of the background tasks the stored tree is absent or the tree of the CURRENT
+    text; `answers_from_current_text`: every answer is the handler applied to the current text
+    and the tree of that text (no guard).
   * `Server.payeeTemplatesCache`: model HL.Derived; `templates_fresh`.
 
-  Both hold for the code as repaired by the `fix:` commit "caches derived from a document
-  never outlive the text they were computed from"; `pinned_stale_templates_counterexample`
-  records the pinned behaviour.
+  Both hold for the code as repaired by the `fix:` commits "caches derived from a document
+  never outlive the text they were computed from" and (the window in which no tree was stored)
+  repo_patches/fix-resolved-pending.diff; `pinned_stale_templates_counterexample` and
+  HL.Props.C14.pinned_resolved_pending_counterexample record the pinned behaviour.
 -/
 import HL.Model.Derived
 import HL.Props.C14
@@ -95,20 +98,47 @@ theorem pinned_stale_templates_counterexample :
     served (fun t => t) (run (fun t => t) true es) 0 = some 11 := by
   decide
 
-/-- The include tree a request reads is absent or that of the current text, for every history
-    and every scheduling of the background tasks (HL.Bg is the model shared with C14). -/
+/-- The include tree stored for a document is absent or that of the current text, for every
+    history (requests and configuration changes included) and every scheduling of the
+    background tasks (HL.Bg is the model shared with C14). -/
 theorem resolved_fresh {Text Res : Type} (load : Text → Res) (es : List (HL.Bg.Ev Text)) (u : Nat) :
-    (HL.Bg.run load es).resolved u = none ∨
-    ∃ t, (HL.Bg.run load es).docs u = some t ∧ (HL.Bg.run load es).resolved u = some (load t) :=
+    (HL.Bg.run load true es).resolved u = none ∨
+    ∃ t, (HL.Bg.run load true es).docs u = some t ∧ (HL.Bg.run load true es).resolved u = some (load t) :=
   HL.Props.C14.resolved_never_stale load es u
 
-/-- **Every answer of a handler that reads the include tree is a function of the current text**:
-    the handler applied to the current text with the tree of that text, or with no tree. -/
+/-- **Every answer of a handler that reads the include tree is computed from the current text
+    and from no older version** — the handler applied to the text the document has when the
+    request is taken and to the include tree of THAT text; no guard (the window between a
+    change and the end of its background task was closed by the `fix:` commit "a request right
+    after a change sees the included files").  `es` is any trace after which the handler thread
+    is free and `u` is open with text `t`; `mid` is whatever the background does while the
+    request is answered, and what follows. -/
 theorem answers_from_current_text {Text Res Resp : Type} (load : Text → Res)
-    (h : Text → Option Res → Resp) (es : List (HL.Bg.Ev Text)) (u : Nat) :
-    HL.Bg.respond h (HL.Bg.run load es) u = HL.Bg.specRespond load h (HL.Bg.run load es) u ∨
-    HL.Bg.respond h (HL.Bg.run load es) u = HL.Bg.bareRespond h (HL.Bg.run load es) u :=
-  HL.Props.C14.response_is_function_of_state load h es u
+    (h : Text → Option Res → Resp) (es mid : List (HL.Bg.Ev Text)) (u : Nat) (t : Text)
+    (a : HL.Bg.Answer Text Res)
+    (idle : (HL.Bg.run load true es).req = none) (hd : (HL.Bg.run load true es).docs u = some t)
+    (ha : (HL.Bg.run load true (es ++ .req u :: mid)).answers[(HL.Bg.run load true es).answers.length]? = some a) :
+    a.response h = h t (some (load t)) := by
+  have := (HL.Props.C14.response_is_function_of_state load h es mid u t a idle hd ha).2
+  simpa [HL.Bg.specRespond, hd] using this
+
+/-- ... and no answer at all, at any point of any trace, was computed without a tree or with the
+    tree of another text than the one it was computed from. -/
+theorem answers_never_from_older_text {Text Res : Type} (load : Text → Res)
+    (es : List (HL.Bg.Ev Text)) (a : HL.Bg.Answer Text Res) (ha : a ∈ (HL.Bg.run load true es).answers) :
+    a.tree = some (load a.doc) :=
+  HL.Props.C14.every_answer_uses_tree_of_its_text load es a ha
+
+/-- Non-vacuity of `answers_from_current_text`: change, request before the task of the change
+    has run, a second change arriving after the answer. -/
+example :
+    let load := fun t : Nat => t + 100
+    let es : List (HL.Bg.Ev Nat) := [.change 0 1, .start 0 0, .finish 0 0, .change 0 2]
+    let mid : List (HL.Bg.Ev Nat) := [.adv, .adv, .start 0 0, .adv, .adv, .adv, .change 0 3]
+    (HL.Bg.run load true es).req = none ∧ (HL.Bg.run load true es).docs 0 = some 2 ∧
+    (HL.Bg.run load true (es ++ .req 0 :: mid)).answers[(HL.Bg.run load true es).answers.length]?
+      = some ⟨0, 2, some 102⟩ := by
+  decide
 
 /-- Non-vacuity: a history in which the cache is filled, invalidated by a change and refilled. -/
 example : served (fun t : Nat => t + 1) (run (fun t => t + 1) true
